@@ -37,13 +37,13 @@ Inductive const :=
 | CNone | CBool (b : bool) | CInt (z : Z) | CFloat (bits : Z) | CStr (s : str)
 | CBytes (s : str) | CComplex (im_bits : Z) | CEllipsis.
 
-Inductive boolop := And | Or.
-Inductive arith := Add | Sub | Mult | Div | Mod.
+Inductive boolop := BAnd | BOr.
+Inductive arith := AAdd | ASub | AMult | ADiv | AMod.
 (* ast.operator: the five handled ones, anything else by class name *)
 Inductive binop := BArith (a : arith) | BOther (cls : str).
-Inductive unop := Not | UOther (cls : str).
+Inductive unop := UNot | UOther (cls : str).
 (* ast.cmpop is exactly these ten classes *)
-Inductive cmpop := Eq | NotEq | Lt | LtE | Gt | GtE | Is | IsNot | In | NotIn.
+Inductive cmpop := OpEq | OpNotEq | OpLt | OpLtE | OpGt | OpGtE | OpIs | OpIsNot | OpIn | OpNotIn.
 
 Inductive expr :=
 | EBoolOp (p : pos) (op : boolop) (vs : list expr)
@@ -81,13 +81,13 @@ Inductive pyval :=
 Definition pstr (s : string) : pyval := PLeaf (CStr (lit s)).
 
 Definition boolop_name (op : boolop) : string :=
-  match op with And => "And" | Or => "Or" end.
+  match op with BAnd => "And" | BOr => "Or" end.
 Definition arith_name (op : arith) : string :=
-  match op with Add => "Add" | Sub => "Sub" | Mult => "Mult" | Div => "Div" | Mod => "Mod" end.
+  match op with AAdd => "Add" | ASub => "Sub" | AMult => "Mult" | ADiv => "Div" | AMod => "Mod" end.
 Definition cmpop_name (op : cmpop) : string :=
   match op with
-  | Eq => "Eq" | NotEq => "NotEq" | Lt => "Lt" | LtE => "LtE" | Gt => "Gt" | GtE => "GtE"
-  | Is => "Is" | IsNot => "IsNot" | In => "In" | NotIn => "NotIn"
+  | OpEq => "Eq" | OpNotEq => "NotEq" | OpLt => "Lt" | OpLtE => "LtE" | OpGt => "Gt" | OpGtE => "GtE"
+  | OpIs => "Is" | OpIsNot => "IsNot" | OpIn => "In" | OpNotIn => "NotIn"
   end.
 
 Fixpoint to_py (t : tree) : pyval :=
@@ -183,7 +183,7 @@ Fixpoint convert (strict : bool) (e : expr) : cres tree :=
   | EUnaryOp p op x =>
       match op with
       | UOther _ => Err (ErrUnsupported p)
-      | Not => bindc (convert strict x) (fun t => Ok (TNot t))
+      | UNot => bindc (convert strict x) (fun t => Ok (TNot t))
       end
   | ECompare _ l ops cs =>
       match ops, cs with
@@ -294,7 +294,7 @@ Fixpoint shape_ok (e : expr) : bool :=
   | EBoolOp _ _ vs => forallb shape_ok vs
   | EBinOp _ (BArith _) l r => shape_ok l && shape_ok r
   | EBinOp _ (BOther _) _ _ => false
-  | EUnaryOp _ Not x => shape_ok x
+  | EUnaryOp _ UNot x => shape_ok x
   | EUnaryOp _ (UOther _) _ => false
   | ECompare _ l [_] [c] => shape_ok l && shape_ok c
   | ECompare _ _ _ _ => false
@@ -327,18 +327,27 @@ Fixpoint plain_ok (e : expr) : bool :=
 (* "boolean, arithmetic and comparison operators, membership, attributes, constants, lists, calls" *)
 Definition supported (e : expr) : bool := shape_ok e && plain_ok e.
 
+(* CPython's compiler rejects a call that repeats a keyword name ("keyword argument repeated"), although
+   ast.parse accepts it: such a call has no Python meaning *)
+Fixpoint str_mem (x : str) (l : list str) : bool :=
+  match l with [] => false | y :: t => str_eqb x y || str_mem x t end.
+Fixpoint str_nodup (l : list str) : bool :=
+  match l with [] => true | x :: t => negb (str_mem x t) && str_nodup t end.
+Definition kw_names {A} (kws : list (option str * A)) : list str :=
+  flat_map (fun kw => match fst kw with Some n => [n] | None => [] end) kws.
+
 Definition is_membership (op : cmpop) : bool :=
-  match op with In | NotIn => true | _ => false end.
+  match op with OpIn | OpNotIn => true | _ => false end.
 
 (* The subset on which the tree means what Python means: supported, And/Or have >= 2 operands, no name is
    spelled True/False/None (the parser never yields such a Name node) or __debug__, and a tuple display occurs only as
-   the right operand of in / not in (the converter turns tuples into List nodes). *)
+   the right operand of in / not in (the converter turns tuples into List nodes), no call repeats a keyword. *)
 Fixpoint in_subset (e : expr) : bool :=
   match e with
   | EBoolOp _ _ vs => (2 <=? Z.of_nat (List.length vs)) && forallb in_subset vs
   | EBinOp _ (BArith _) l r => in_subset l && in_subset r
   | EBinOp _ (BOther _) _ _ => false
-  | EUnaryOp _ Not x => in_subset x
+  | EUnaryOp _ UNot x => in_subset x
   | EUnaryOp _ (UOther _) _ => false
   | ECompare _ l [op] [c] =>
       in_subset l &&
@@ -353,10 +362,42 @@ Fixpoint in_subset (e : expr) : bool :=
   | EList _ es => forallb in_subset es
   | ETuple _ _ => false
   | ECall _ f args kws =>
-      in_subset f && forallb in_subset args &&
+      in_subset f && forallb in_subset args && str_nodup (kw_names kws) &&
       forallb (fun kw => match kw with (k, v) => (match k with Some _ => true | None => false end) && in_subset v end) kws
   | EUnsupported _ _ => false
   end.
+
+(* ------------------------------------------------------------------------------------------- *)
+(* Sub-expressions (specification vocabulary). *)
+Inductive child : expr -> expr -> Prop :=
+| ch_bool p op vs x : List.In x vs -> child x (EBoolOp p op vs)
+| ch_binl p op l r : child l (EBinOp p op l r)
+| ch_binr p op l r : child r (EBinOp p op l r)
+| ch_un p op x : child x (EUnaryOp p op x)
+| ch_cmpl p l ops cs : child l (ECompare p l ops cs)
+| ch_cmpc p l ops cs x : List.In x cs -> child x (ECompare p l ops cs)
+| ch_attr p v a ap : child v (EAttribute p v a ap)
+| ch_list p es x : List.In x es -> child x (EList p es)
+| ch_tuple p es x : List.In x es -> child x (ETuple p es)
+| ch_callf p f args kws : child f (ECall p f args kws)
+| ch_callarg p f args kws x : List.In x args -> child x (ECall p f args kws)
+| ch_callkw p f args kws k x : List.In (k, x) kws -> child x (ECall p f args kws).
+
+Inductive subexpr (x : expr) : expr -> Prop :=
+| sub_refl : subexpr x x
+| sub_step y e : subexpr x y -> child y e -> subexpr x e.
+
+(* a node the converter has no method for, an operator it does not handle, a chained comparison *)
+Definition bad_node (x : expr) : Prop :=
+  (exists p c, x = EUnsupported p c) \/
+  (exists p c l r, x = EBinOp p (BOther c) l r) \/
+  (exists p c y, x = EUnaryOp p (UOther c) y) \/
+  (exists p l ops cs, x = ECompare p l ops cs /\ (List.length ops <> 1%nat \/ List.length cs <> 1%nat)).
+
+(* a constant that is not a number, string, bool or None; a call with a **kwargs argument *)
+Definition odd_node (x : expr) : Prop :=
+  (exists p c, x = EConstant p c /\ const_plain c = false) \/
+  (exists p f args kws, x = ECall p f args kws /\ forallb kw_named kws = false).
 
 (* ------------------------------------------------------------------------------------------- *)
 (* Evaluation.  The operations on Python values are a parameter ([PySem]): both sides are given meaning
@@ -412,7 +453,7 @@ Section Eval.
       | x :: t =>
           bindo (ev x) (fun v =>
           bindo (sem_truthy M v) (fun b =>
-            if (match op with And => b | Or => negb b end) then go t else Val v))
+            if (match op with BAnd => b | BOr => negb b end) then go t else Val v))
       end.
 
   Definition kwarg_sem {A} (ev : A -> R) (kw : option str * A) : out (exc M) (str * V) :=
@@ -429,7 +470,7 @@ Section Eval.
     | EBinOp _ (BArith a) l r =>
         bindo (eval_py g l) (fun vl => bindo (eval_py g r) (fun vr => sem_bin M a vl vr))
     | EBinOp _ (BOther _) _ _ => Undef
-    | EUnaryOp _ Not x => bindo (eval_py g x) (sem_not M)
+    | EUnaryOp _ UNot x => bindo (eval_py g x) (sem_not M)
     | EUnaryOp _ (UOther _) _ => Undef
     | ECompare _ l [op] [c] =>
         bindo (eval_py g l) (fun vl => bindo (eval_py g c) (fun vc => sem_cmp M op vl vc))
@@ -440,6 +481,7 @@ Section Eval.
     | EList _ es => bindo (mapMo (eval_py g) es) (fun vs => Val (sem_list M vs))
     | ETuple _ es => bindo (mapMo (eval_py g) es) (fun vs => Val (sem_tuple M vs))
     | ECall _ f args kws =>
+        if negb (str_nodup (kw_names kws)) then Undef else
         bindo (eval_py g f) (fun vf =>
         bindo (mapMo (eval_py g) args) (fun vargs =>
         bindo (mapMo (kwarg_sem (eval_py g)) kws) (fun vkws => sem_call M vf vargs vkws)))
@@ -556,28 +598,28 @@ Definition c_bin (op : arith) (a b : cval) : cout :=
   match as_int a, as_int b with
   | Some x, Some y =>
       match op with
-      | Add => Val (VInt (x + y))
-      | Sub => Val (VInt (x - y))
-      | Mult => Val (VInt (x * y))
-      | Mod => if y =? 0 then Raise ZeroDivisionError else Val (VInt (x mod y))
-      | Div => if y =? 0 then Raise ZeroDivisionError else Undef     (* a float: not modelled *)
+      | AAdd => Val (VInt (x + y))
+      | ASub => Val (VInt (x - y))
+      | AMult => Val (VInt (x * y))
+      | AMod => if y =? 0 then Raise ZeroDivisionError else Val (VInt (x mod y))
+      | ADiv => if y =? 0 then Raise ZeroDivisionError else Undef     (* a float: not modelled *)
       end
   | _, _ =>
       match op, a, b with
-      | Add, VStr s, VStr t => Val (VStr (s ++ t))
-      | Add, VList s, VList t => Val (VList (s ++ t))
-      | Add, VTuple s, VTuple t => Val (VTuple (s ++ t))
-      | Mult, VStr s, _ =>
+      | AAdd, VStr s, VStr t => Val (VStr (s ++ t))
+      | AAdd, VList s, VList t => Val (VList (s ++ t))
+      | AAdd, VTuple s, VTuple t => Val (VTuple (s ++ t))
+      | AMult, VStr s, _ =>
           match as_int b with Some n => c_repeat VStr n s | None => Raise TypeError end
-      | Mult, VList s, _ =>
+      | AMult, VList s, _ =>
           match as_int b with Some n => c_repeat VList n s | None => Raise TypeError end
-      | Mult, _, VStr s =>
+      | AMult, _, VStr s =>
           match as_int a with Some n => c_repeat VStr n s | None => Raise TypeError end
-      | Mult, _, VList s =>
+      | AMult, _, VList s =>
           match as_int a with Some n => c_repeat VList n s | None => Raise TypeError end
-      | Mod, VStr _, _ => Undef                                       (* %-formatting: not modelled *)
+      | AMod, VStr _, _ => Undef                                       (* %-formatting: not modelled *)
       | _, VObj _, _ | _, _, VObj _ | _, VFunc _, _ | _, _, VFunc _ => Undef
-      | Mult, VTuple _, _ | Mult, _, VTuple _ => Undef
+      | AMult, VTuple _, _ | AMult, _, VTuple _ => Undef
       | _, _, _ => Raise TypeError
       end
   end.
@@ -620,16 +662,16 @@ Definition c_cmp (op : cmpop) (a b : cval) : cout :=
               end
     end in
   match op with
-  | Eq => ofb (cval_eq a b)
-  | NotEq => ofb (option_map negb (cval_eq a b))
-  | Lt => order Z.ltb str_ltb
-  | LtE => order Z.leb (fun s t => negb (str_ltb t s))
-  | Gt => order Z.gtb (fun s t => str_ltb t s)
-  | GtE => order Z.geb (fun s t => negb (str_ltb s t))
-  | Is => ofb (c_is a b)
-  | IsNot => ofb (option_map negb (c_is a b))
-  | In => bindo (c_contains a b) (fun x => Val (VBool x))
-  | NotIn => bindo (c_contains a b) (fun x => Val (VBool (negb x)))
+  | OpEq => ofb (cval_eq a b)
+  | OpNotEq => ofb (option_map negb (cval_eq a b))
+  | OpLt => order Z.ltb str_ltb
+  | OpLtE => order Z.leb (fun s t => negb (str_ltb t s))
+  | OpGt => order Z.gtb (fun s t => str_ltb t s)
+  | OpGtE => order Z.geb (fun s t => negb (str_ltb s t))
+  | OpIs => ofb (c_is a b)
+  | OpIsNot => ofb (option_map negb (c_is a b))
+  | OpIn => bindo (c_contains a b) (fun x => Val (VBool x))
+  | OpNotIn => bindo (c_contains a b) (fun x => Val (VBool (negb x)))
   end.
 
 Fixpoint assoc_str {A} (k : str) (l : list (str * A)) : option A :=
@@ -792,9 +834,9 @@ Record c40_case := {
   cc_supported : bool; cc_in_subset : bool
 }.
 
-Definition c40_case_ok (c : c40_case) : bool :=
-  parse_result_eqb (parse_predicate false (cc_ast c) (cc_comments c)) (cc_parse c)
-  && json_obs_eqb (observe_json (parse_predicate_json false (cc_truthy c) (cc_ast c) (cc_comments c))) (cc_json c)
+Definition c40_case_ok (strict : bool) (c : c40_case) : bool :=
+  parse_result_eqb (parse_predicate strict (cc_ast c) (cc_comments c)) (cc_parse c)
+  && json_obs_eqb (observe_json (parse_predicate_json strict (cc_truthy c) (cc_ast c) (cc_comments c))) (cc_json c)
   && match cc_ast c with
      | Some e => Bool.eqb (supported e) (cc_supported c) && Bool.eqb (in_subset e) (cc_in_subset c)
      | None => true
